@@ -107,3 +107,96 @@ def oracle(c, impl_res):
     if c.cmd != "ENC":
         return None  # handle-level cases (RUN) are decided by the correspondence with the model's closed form
     return ("ORC", "C06 %s @@ %s" % (c.args, impl_res))
+
+
+# ------------------------------------------------------------------ "libccp itself accepts it and behaves accordingly"
+NEEDS_CVM = True
+CTL_SRC = ("(def (Report (a 0) (b 0)) (c1 5) (volatile c2 6) (c3 7)) (when true (:= Report.a (+ c1 c3)) (:= Report.b c2) "
+           "(:= c2 (+ c2 1)) (report))")
+
+
+def extra(ctx):
+    """install, change-program (with field updates) and update-fields messages built by the REAL portus encoders are fed to the
+    REAL libccp (C driver around its unmodified sources): libccp must accept each (return code 0) and the next report must show
+    exactly the updated values; the Lean libccp model must give the same answers"""
+    import struct
+    import core
+    rng = ctx.rng
+    fails = []
+    r = core.run_impl(["CMP 0 %s - -" % CTL_SRC.encode().hex()]).get("0", "")
+    if not r.startswith("OK "):
+        return ([{"property": ID, "kind": "no-failing-input-found", "relation": "control program for the libccp cross-check compiles", "detail": r}], {})
+    img = bytes.fromhex(r.split(" ")[1])
+    ni = (len(img) - 16) // 16
+    inst = core.run_impl(["ENC 0 IN 0 7 1 %d - -" % ni]).get("0", "")  # header only probe (not used further)
+    install = struct.pack("<HHIIII", 2, 20 + len(img), 0, 7, 1, ni) + img
+    V = [0, 1, 5, 2**31, 2**32 - 1, 2**32, 2**40, 2**63, 2**64 - 1]
+    n = 300 if ctx.thorough else 40
+    plans, enc_lines = [], []
+    for i in range(n):
+        c1, c2, c3 = rng.choice(V + [rng.getrandbits(20)]), rng.choice(V + [rng.getrandbits(20)]), rng.choice(V + [rng.getrandbits(20)])
+        cw = rng.choice([1, 10, 2**31, 2**32 - 1])
+        u2 = rng.choice(V + [rng.getrandbits(20)])
+        order = rng.random() < 0.5
+        cp_fields = ("C0n=%d,C2n=%d" % (c1, c3)) if order else ("C2n=%d,C0n=%d" % (c3, c1))
+        enc_lines += ["ENC %d.cp CP 1 7 2 %s" % (i, cp_fields), "ENC %d.uf1 UF 1 1 C1v=%d" % (i, c2),
+                      "ENC %d.uf2 UF 1 2 I4=%d,C1v=%d" % (i, cw, u2), "ENC %d.uf0 UF 1 0 -" % i]
+        plans.append((c1, c2, c3, cw, u2))
+    enc = core.run_impl(enc_lines)
+    scripts = []
+    for i, (c1, c2, c3, cw, u2) in enumerate(plans):
+        ms = [enc.get("%d.%s" % (i, k), "") for k in ("cp", "uf1", "uf2", "uf0")]
+        if not all(m.startswith("OK ") for m in ms):
+            fails.append({"property": ID, "kind": "failing-input", "case": enc_lines[4 * i], "relation": "the encoders accept representable messages", "detail": ms})
+            continue
+        cp, uf1, uf2, uf0 = (m.split(" ")[1] for m in ms)
+        zero = ",".join(["0"] * 15)
+        ops = ["M " + install.hex(), "S 10 1460 1 2 3 4 -", "M " + cp, "T 10", "I 1 10 10 " + zero, "M " + uf1, "T 20", "I 1 10 10 " + zero,
+               "M " + uf2, "T 30", "I 1 10 10 " + zero, "M " + uf0, "T 40", "I 1 10 10 " + zero]
+        scripts.append("VM %d %s" % (i, " ; ".join(ops)))
+    real = core.run_cvm(scripts)
+    model = core.run_model(scripts)
+
+    def fields(part):   # "I rc c=.. r=.. <hex>"
+        t = part.split(" ")
+        if t[-1] in ("-", ""):
+            return t[1], t[2], None
+        b = bytes.fromhex(t[-1])
+        k = struct.unpack_from("<I", b, 12)[0]
+        return t[1], t[2], list(struct.unpack_from("<%dQ" % k, b, 16))
+    M64 = 2**64
+    checked = 0
+    for i, (c1, c2, c3, cw, u2) in enumerate(plans):
+        rr = real.get(str(i), "")
+        parts = rr.split(" | ")
+        if rr != model.get(str(i)):
+            fails.append({"property": ID, "kind": "no-failing-input-found", "relation": "Lean libccp model = real libccp on messages built by portus",
+                          "case": scripts[i][:2000], "real": rr[:800], "model": (model.get(str(i)) or "")[:800]})
+            continue
+        try:
+            accept = [parts[k].split(" ")[1] for k in (1, 3, 6, 9, 12)]  # rc of M install, M cp, M uf1, M uf2, M uf0
+            i1, i2, i3, i4 = fields(parts[5]), fields(parts[8]), fields(parts[11]), fields(parts[14])
+        except (IndexError, struct.error):
+            fails.append({"property": ID, "kind": "failing-input", "case": scripts[i][:2000], "relation": "libccp answered every step", "real": rr[:800]})
+            continue
+        a = c1 + c3
+
+        def rep(c2v):   # (+ c1 c3) or (+ c2 1) overflowing is an arithmetic fault: the invocation aborts, nothing is reported
+            return None if a >= M64 or c2v + 1 >= M64 else [a, c2v]
+        want = {
+            "all messages accepted (rc 0)": (accept, ["0"] * 5),
+            "report after change-program": (i1[2], rep(6)),
+            "report after update c2": (i2[2], rep(c2)),
+            "report after update Cwnd+c2": (i3[2], rep(u2)),
+            "set_cwnd after update": (i3[1], "c=%d" % (cw % 2**32)),
+            "empty update changes nothing (volatile c2 back to 6 after a report, else kept)": (i4[2], rep(6) if rep(u2) is not None else rep(u2)),
+        }
+        for what, (got, exp) in want.items():
+            if got != exp:
+                fails.append({"property": ID, "kind": "failing-input", "case": scripts[i][:3000],
+                              "relation": "libccp accepts portus' message and behaves accordingly: " + what,
+                              "expected": exp, "observed_on_real_libccp": got, "plan(c1,c2,c3,cwnd,c2')": [c1, c2, c3, cw, u2]})
+                break
+        checked += 1
+    return fails[:5], {"libccp_behaves_accordingly": {"scripts": len(plans), "agree_with_expectation_and_model": checked,
+                                                      "messages": "install, change-program(2 fields), update-fields(0/1/2 fields incl. Cwnd)"}}
